@@ -91,8 +91,15 @@ def memo_obligations(world):
     return out
 
 
+def schema_memo_obligations():
+    """DoesFragmentTypeApply and abstract completion ask the schema's memoised sub-type / possible-type
+    maps: each memo must be filled under the key it is read with (finite, shared with C12)."""
+    from .C12 import memo_key_obligations
+    return [o for o in memo_key_obligations() if "graphql.type.schema" in o["func"]]
+
+
 def extra_obligations(world, tier, seed):
-    return gtypes_lemmas() + memo_obligations(world)
+    return gtypes_lemmas() + memo_obligations(world) + schema_memo_obligations()
 
 
 WITNESS_F7 = r'''
